@@ -82,6 +82,34 @@ func runC18(c *Ctx) {
 		}
 		return res[0].ExactString(), true
 	}
+	// R18.18 the apostrophe is a string delimiter only where the language has single-quoted strings. In the Lisp family it
+	// is the quote operator, in the Verilog family it stands inside sized numbers (8'hFF): there QuoteCharacter must not
+	// report it as a quote - one apostrophe in ordinary code hides every comment up to the next one. (The list is a fact
+	// about the languages, kept here; HTML and Markdown are exempted from string lexing as a whole, R18.12.)
+	if qc := p.Func(langPkg, "(Language).QuoteCharacter"); qc != nil && len(qc.Params) == 2 {
+		notAQuote := map[string]bool{"Lisp": true, "Clojure": true, "Verilog": true, "SystemVerilog": true}
+		nQ, bad, und := 0, "", ""
+		for _, l := range langs {
+			if !notAQuote[l.Name()] {
+				continue
+			}
+			res, err := ce.Eval(qc, []constant.Value{l.Val(), constant.MakeInt64('\'')})
+			if err != nil || len(res) < 1 {
+				und = l.Name()
+				continue
+			}
+			nQ++
+			if res[0].Kind() == constant.Bool && constant.BoolVal(res[0]) {
+				bad += l.Name() + " "
+			}
+		}
+		if und != "" {
+			c.R.Info("R18.18", "QuoteCharacter: the apostrophe in "+und, p.Pos(qc.Pos()), "not decided: the function could not be evaluated for this language")
+		} else {
+			c.R.Check(bad == "", "R18.18", "QuoteCharacter: the apostrophe is not a quote in the Lisp and Verilog families", p.Pos(qc.Pos()), fmt.Sprintf("%d languages evaluated", nQ),
+				"QuoteCharacter reports the apostrophe as a string delimiter for "+strings.TrimSpace(bad)+": there it is the quote operator / part of a sized number, so ordinary code (\"8'hFF\", \"'foo\") opens a string that swallows the comments behind it")
+		}
+	}
 	defStyle := ""
 	image := map[string][]string{}
 	styleOf := map[string]string{}
@@ -410,6 +438,7 @@ func runC18(c *Ctx) {
 	// comments, an integer counts the open comments - every nested start delimiter adds one, an end delimiter takes one off
 	// while the count is positive, and the comment ends only on an end delimiter at count zero.
 	checkNestingCounter(c, p, lexFns, match)
+	checkNewlineEndsString(c, p, lexFns)
 
 	// R18.14 what Parse returns belongs to the caller: the call writes no package-level state and the list it returns (and
 	// the comments in it) is allocated by this call - not taken from a pool that a later call fills again
@@ -597,6 +626,49 @@ func checkChunkIterator(c *Ctx, p *core.Prog) {
 		}
 	}
 	c.R.Check(sends > 0 && outside == 0, "R18.6", "ChunkIterator: chunks are sent only by the producer goroutine", p.Pos(fn.Pos()), fmt.Sprintf("%d send site(s), all in the goroutine", sends), "a send happens outside the producer goroutine or there is no send")
+	// R18.16 how the comments are grouped depends on where they stand, not on what they say: no branch of the producer
+	// tests a comment's text (a comment that is skipped for being blank is not delivered, and the run around it is cut)
+	nIf, bad := 0, ""
+	for _, f := range core.WithAnon(fn) {
+		var dep func(v ssa.Value, seen map[ssa.Value]bool) bool
+		dep = func(v ssa.Value, seen map[ssa.Value]bool) bool {
+			if v == nil || seen[v] {
+				return false
+			}
+			seen[v] = true
+			switch x := v.(type) {
+			case *ssa.FieldAddr:
+				if core.FieldName(x) == "Text" {
+					return true
+				}
+			case *ssa.Field:
+				if st, ok := x.X.Type().Underlying().(*types.Struct); ok && st.Field(x.Field).Name() == "Text" {
+					return true
+				}
+			}
+			in, ok := v.(ssa.Instruction)
+			if !ok {
+				return false
+			}
+			for _, op := range in.Operands(nil) {
+				if *op != nil && dep(*op, seen) {
+					return true
+				}
+			}
+			return false
+		}
+		for _, b := range f.Blocks {
+			if ifi, ok := b.Instrs[len(b.Instrs)-1].(*ssa.If); ok {
+				nIf++
+				if dep(ifi.Cond, map[ssa.Value]bool{}) {
+					bad = p.Pos(ifi.Cond.Pos())
+				}
+			}
+		}
+	}
+	c.R.Check(bad == "", "R18.16", "ChunkIterator: no branch depends on the text of a comment", p.Pos(fn.Pos()), fmt.Sprintf("%d branches, all on positions and lengths", nIf),
+		"a branch of the producer tests the text of a comment (at "+bad+"): comments are delivered or grouped differently depending on what they say - every comment has to be delivered, in maximal runs of adjacent lines")
+	c.R.RequireMin("R18.16", "branches in ChunkIterator", nIf, 3)
 }
 
 // checkParseInput: R18.8.
@@ -1016,4 +1088,76 @@ func checkNestingCounter(c *Ctx, p *core.Prog, lexFns []*ssa.Function, match *ss
 	if nLoops == 0 {
 		c.R.Info("R18.13", "nested comments", "-", "no loop tests Language.NestedComments")
 	}
+}
+
+
+// checkNewlineEndsString: R18.17. Some languages end a string literal at the end of the line (a quote inside an unquoted
+// regular expression). That exit is taken for a newline only, whatever the language: the code behind a test `c == '\n'` that
+// stands under a test of the language is entered from that test alone. (With `lang == A || lang == B && c == '\n'` the code
+// is entered for every rune when the language is A: any ordinary character ends the string and its contents are lexed as
+// code and comments.)
+func checkNewlineEndsString(c *Ctx, p *core.Prog, lexFns []*ssa.Function) {
+	n := 0
+	for _, fn := range lexFns {
+		isLangTest := func(v ssa.Value) bool {
+			bo, ok := v.(*ssa.BinOp)
+			if !ok || (bo.Op != token.EQL && bo.Op != token.NEQ) {
+				return false
+			}
+			for _, o := range []ssa.Value{bo.X, bo.Y} {
+				if ld, ok := o.(*ssa.UnOp); ok {
+					if fa, ok := ld.X.(*ssa.FieldAddr); ok && strings.Contains(core.TypeName(fa.Type()), "language.Language") {
+						return true
+					}
+				}
+			}
+			return false
+		}
+		cdeps := core.NewPostDom(fn).TransitiveControlDeps()
+		for _, b := range fn.Blocks {
+			ifi, ok := b.Instrs[len(b.Instrs)-1].(*ssa.If)
+			if !ok {
+				continue
+			}
+			bo, ok := ifi.Cond.(*ssa.BinOp)
+			if !ok || bo.Op != token.EQL {
+				continue
+			}
+			if k, isK := core.ConstInt(bo.Y); !isK || k != '\n' {
+				continue
+			}
+			// the language tests directly in front of the newline test (the chain of `||` alternatives)
+			langs := map[*ssa.BasicBlock]bool{}
+			var back func(x *ssa.BasicBlock, depth int)
+			back = func(x *ssa.BasicBlock, depth int) {
+				for _, pr := range x.Preds {
+					if langs[pr] || depth > 6 {
+						continue
+					}
+					if di, ok := pr.Instrs[len(pr.Instrs)-1].(*ssa.If); ok && isLangTest(di.Cond) && cdeps[b][pr] {
+						langs[pr] = true
+						back(pr, depth+1)
+					}
+				}
+			}
+			back(b, 0)
+			if len(langs) == 0 {
+				continue
+			}
+			n++
+			// every outcome of such a language test leads to the newline test, to the next language test, or to where the
+			// newline test goes when it fails - never straight to the code behind the newline test
+			okT := true
+			for l := range langs {
+				for _, sc := range l.Succs {
+					if sc != b && !langs[sc] && sc != b.Succs[1] {
+						okT = false
+					}
+				}
+			}
+			c.R.Check(okT, "R18.17", core.ShortFn(fn)+": the end-of-line exit from a string literal is taken for a newline only", p.Pos(ifi.Cond.Pos()),
+				"the code behind `c == '\\n'` is entered from that test alone", "the code behind the newline test can also be entered without the test having held (the language test joins it by `||` without parentheses): for that language every rune ends the string, and text inside string literals is reported as comments")
+		}
+	}
+	c.R.Count("R18.17:newline tests under a language test in the lexer", n)
 }
